@@ -81,14 +81,28 @@ func c09Grid(w *W) {
 	if kc.family == "pair1" {
 		limit = ttl + 1
 	}
-	for k := 1; k <= ttl+2 && !w.Failed(); k++ {
+	ks := []int{}
+	for k := 1; k <= ttl+2; k++ {
+		ks = append(ks, k)
+	}
+	if (kc.family == "pair1" || kc.family == "star") && ttl < 253 {
+		ks = append(ks, 255, 256) // hop bytes 254 and 255: far beyond any smaller TTL
+	}
+	for _, k := range ks {
+		if w.Failed() {
+			break
+		}
 		hdr, ok := synthHops(kc.family, k, uint32(w.Choose(simrt.SProg, 1<<20)))
 		if !ok {
 			continue
 		}
-		if (kc.family == "pair1" || kc.family == "star") && k-1 == 255 {
-			// a one-byte count of 255 cannot be incremented: not asserted
+		if (kc.family == "pair1" || kc.family == "star") && k-1 == 255 && ttl >= 254 {
+			// a one-byte count of 255 cannot be incremented: with a TTL that
+			// would admit it, this single cell is not asserted
 			continue
+		}
+		if k-1 == 255 {
+			w.Probe("hop-byte-255-below-ttl-255")
 		}
 		probe := fmt.Sprintf("probe-k%d", k)
 		shdr, _ := synthHops(kc.family, 1, 99)
